@@ -314,7 +314,14 @@ LIBYANG_API_DEF int
 lyplg_type_sort_identityref(const struct ly_ctx *UNUSED(ctx), const struct lyd_value *val1,
         const struct lyd_value *val2)
 {
-    return strcmp(val1->ident->name, val2->ident->name);
+    int cmp;
+
+    /* identities of the same name in different modules are different values */
+    cmp = strcmp(val1->ident->name, val2->ident->name);
+    if (!cmp) {
+        cmp = strcmp(val1->ident->module->name, val2->ident->module->name);
+    }
+    return cmp;
 }
 
 LIBYANG_API_DEF const void *
